@@ -280,6 +280,52 @@ def max_occurrence_rule(prog: Program, rep, RID: str):
         raise AnalysisError(f"max_occurrence: contribution `{norm(val)}` not recognised")
 
 
+def greedy_units(prog: Program, rep, RID: str):
+    """The coverage test of the greedy paths compares like with like: when the coverage is counted in edges (no length
+    coverage given) every covered edge counts 1 - the edge lengths must not be passed to max_occurrence; when it is counted in
+    length, the same lengths are used on both sides."""
+    from rules.common import canonical_calls, expr_cases
+    from sa import boolnf as B
+    f = prog.own_method("kFlowDecomp", "_get_solution_with_greedy")
+    tests = [(t[5:], c, ln) for t, c, ln in canonical_calls(f.node) if t.startswith("test ") and "max_occurrence(" in t]
+    key = "kFlowDecomp._get_solution_with_greedy:units"
+    if len(tests) != 1:
+        raise AnalysisError(f"kFlowDecomp._get_solution_with_greedy: expected one test on max_occurrence, found {len(tests)}")
+    e = ast.parse(tests[0][0].replace("<self.subpath_constraints>", "SP").replace("<self.subpath_constraints or []>", "SP"), mode="eval").body
+    by_edges = B.parse(ast.parse("self.subpath_constraints_coverage_length is None", mode="eval").body)
+    probs = []
+    n = 0
+    for g, x in expr_cases(e):
+        if not B.satisfiable(g):
+            continue
+        n += 1
+        txt = norm(x)
+        m = re.search(r"max_occurrence\((.*)\) < (.*)$", txt)
+        if not m:
+            raise AnalysisError(f"kFlowDecomp._get_solution_with_greedy: coverage test `{txt[:100]}` not recognised")
+        call, thr = m.group(1), m.group(2)
+        weighted = bool(re.search(r"edge_lengths=\{\(", call)) or bool(re.search(r"edge_lengths=(?!\{\})", call) and "edge_lengths=" in call and not re.search(r"edge_lengths=\{\}", call))
+        if B.implies(g, by_edges):
+            if weighted:
+                probs.append(f"with the coverage counted in edges (threshold `{thr[:60]}`) the occurrences are weighted by edge lengths")
+            if not re.search(r"len\(SP\)", thr):
+                probs.append(f"edge-count variant compares with `{thr[:60]}` instead of len(constraint) * coverage")
+        elif B.implies(g, B.mk_not(by_edges)):
+            if not weighted:
+                probs.append(f"with the coverage counted in length (threshold `{thr[:60]}`) the occurrences are counted in edges")
+            if "sum(" not in thr or "length_attr" not in thr:
+                probs.append(f"length variant compares with `{thr[:60]}` instead of the total length * coverage")
+        else:
+            probs.append("the test does not distinguish the edge-count and the length variant")
+    if n < 2 and not probs:
+        probs.append("only one coverage variant is tested")
+    if probs:
+        rep.violation(RID, key, probs[0] + ": a partially covered constraint with long edges passes, and greedy paths violating a subpath constraint are returned",
+                      f"{f.module.relpath}:{tests[0][2]}")
+    else:
+        rep.ok(RID, key, "edge-count variant: every covered edge counts 1 against len * coverage; length variant: lengths on both sides", f"{f.module.relpath}:{tests[0][2]}")
+
+
 def greedy_rejection(prog: Program, rep, RID: str):
     f = prog.own_method("kFlowDecomp", "_get_solution_with_greedy")
     # the constraint loop: for subpath in self.subpath_constraints: ... if gu.max_occurrence(...) < L * c: return False
@@ -369,6 +415,7 @@ def check(prog: Program, rep):
     rep.rule("C10.R5", "greedy rejection on unmet constraints; the coverage test counts path *edges*", floor=4)
     greedy_rejection(prog, rep, "C10.R5")
     max_occurrence_rule(prog, rep, "C10.R5")
+    greedy_units(prog, rep, "C10.R5")
     rep.rule("C10.R6", "constraint edges are trusted for safety only under full coverage; ignore lists are never written", floor=10)
     semantic.trusted_edge_providers(prog, rep, "C10.R6")
     from rules.c18 import class_inputs_not_mutated
